@@ -10,13 +10,17 @@ LENS = [1, 2, 3, 4, 5, 100, 101, 102]     # 1..5: every byte value at every posi
 
 
 class DocmdHooks(QHooks):
-    tracked = frozenset(['G:messid', 'G:flagabort'])
+    tracked = frozenset(['G:messid', 'G:flagabort', 'G:delnum', 'G:auto_spawn', 'G:auto_uidq', 'G:d'])
     precise = frozenset(['L:i'])
+    AUTO = 3          # configured concurrency limit in the explored geometry
+    QUID = 7          # uid of qmailq in the explored geometry
 
     def __init__(self):
         self.sites = {}
         self.opens = 0
         self.returns = 0
+        self.slots = 0
+        self.spawns = 0
 
     def site(self, inst, x, ok, detail, E):
         prev = self.sites.get(inst)
@@ -29,7 +33,44 @@ class DocmdHooks(QHooks):
         v = E.get(k)
         return next(iter(v)) if v else d
 
+    def slot(self, E, x, path):
+        import re
+        m = re.match(r'^G:d\[(-?\d+)\]', path)
+        if m:
+            k = int(m.group(1))
+            self.slots += 1
+            self.site('d[delnum]-in-range', x, 0 <= k < self.AUTO,
+                      'the delivery table (auto_spawn = %d) is accessed at index %d: a delivery number outside 0..auto_spawn-1 reaches the slot array' % (self.AUTO, k), E)
+
+    def materialize(self, E, path):
+        if path == 'G:auto_spawn':
+            return fs(self.AUTO)
+        if path == 'G:auto_uidq':
+            return fs(self.QUID)
+        if path.startswith('G:d['):
+            self.slot(E, None, path)
+        return TOP
+
+    def prim_fstat(self, E, x, args):
+        sp = None
+        if args[1] is not TOP and len(args[1]) == 1:
+            (a,) = args[1]
+            if isinstance(a, tuple) and a[0] == '&':
+                sp = a[1]
+        if sp is None:
+            raise AnalysisBroken('spawn.c docmd: fstat() buffer is not an object address')
+        outs = [Outcome(ret=fs(-1), sets={'$st': fs('fail')}, log='fstat fails')]
+        for mode in (0o100644, 0o100600, 0o040755, 0o120777, 0o010644):
+            for uid in (self.QUID, self.QUID + 1, 0):
+                outs.append(Outcome(ret=fs(0), sets={sp + '.st_mode': fs(mode), sp + '.st_uid': fs(uid), '$st': fs((mode, uid))}, log='message file: mode %o uid %d' % (mode, uid)))
+        return outs
+
     def materialize_split(self, E, path):
+        if path == 'G:delnum':
+            return [fs(-1), fs(0), fs(self.AUTO - 1), fs(self.AUTO), fs(self.AUTO + 5), fs(255)]
+        if path.startswith('G:d[') and path.endswith('.used'):
+            self.slot(E, None, path)
+            return [fs(0), fs(1)]
         if path.startswith('G:messid.s['):
             k = int(path[len('G:messid.s['):-1])
             n = self.g(E, 'G:messid.len', 0)
@@ -63,10 +104,18 @@ class DocmdHooks(QHooks):
         return [Outcome(ret=fs(('fd', x.id))), Outcome(ret=fs(-1))]
 
     def prim_spawn(self, E, x, args):
+        self.spawns += 1
+        st = self.g(E, '$st', None)
+        ok = isinstance(st, tuple) and (st[0] & 0o170000) == 0o100000 and st[1] == self.QUID
+        self.site('spawn-needs-a-regular-file-owned-by-qmailq', x, ok,
+                  'a delivery child is started for a message file with fstat result %s (documented: fstat succeeded, regular file, owner = auto_uidq = %d)' %
+                  ((oct(st[0]), st[1]) if isinstance(st, tuple) else st, self.QUID), E)
         E.set('$spawned', fs(1))
         return [Outcome(ret=fs(-1)), Outcome(ret=fs(('pid',)))]
 
     def on_assign(self, E, x, path, val):
+        if path.startswith('G:d['):
+            self.slot(E, x, path)
         if path.endswith('.used') and path.startswith('G:d['):
             E.set('$used', fs(1 if val == fs(1) else 2))
 
@@ -105,34 +154,8 @@ def run(ctx):
         r3.check(ok, inst, where, detail, path)
     r3.note(messid_lengths_explored=LENS, abstract_states=total_states)
 
-    # spawn() guarded by file type and owner
-    sp = docmd.calls('spawn')
-    if not sp:
-        raise AnalysisBroken('spawn.c docmd: spawn() call not found')
-    S_IFMT, S_IFREG = 0o170000, 0o100000
-    for c in sp:
-        ok_reg = guard_has(docmd, c, lambda g, t: g.k == 'bin' and g.op in ('!=', '==') and (t is (g.op == '==')) and
-                           g.args[1].const == S_IFREG and g.args[0].strip().k == 'bin' and g.args[0].strip().op == '&' and
-                           g.args[0].strip().args[1].const == S_IFMT and (g.args[0].strip().args[0].path() or '').endswith('.st_mode'))
-        r3.check(ok_reg, 'spawn-needs-S_IFREG', c.where, 'spawn() not dominated by (st.st_mode & S_IFMT) == S_IFREG')
-        ok_own = guard_has(docmd, c, lambda g, t: g.k == 'bin' and g.op in ('!=', '==') and (t is (g.op == '==')) and
-                           {g.args[0].path().split('.')[-1] if g.args[0].path() else None, g.args[1].path()} >= {'st_uid', 'G:auto_uidq'})
-        r3.check(ok_own, 'spawn-needs-owner-qmailq', c.where, 'spawn() not dominated by st.st_uid == auto_uidq')
-        ok_fst = guard_has(docmd, c, lambda g, t: g.k == 'bin' and g.op == '==' and t is False and g.args[1].const == -1 and
-                           g.args[0].strip().callee == 'fstat')
-        r3.check(ok_fst, 'spawn-needs-checked-fstat', c.where, 'spawn() not dominated by a successful fstat')
-    # d[delnum] accesses guarded by 0 <= delnum < auto_spawn
-    n = 0
-    for x in docmd.all_x():
-        if x.k == 'idx' and x.args[0].path() == 'G:d' and x.args[1].path() == 'G:delnum':
-            n += 1
-            lo = guard_has(docmd, x, lambda g, t: g.k == 'bin' and g.op == '<' and g.args[0].path() == 'G:delnum' and g.args[1].const == 0 and t is False)
-            hi = guard_has(docmd, x, lambda g, t: g.k == 'bin' and g.op == '>=' and g.args[0].path() == 'G:delnum' and g.args[1].path() == 'G:auto_spawn' and t is False)
-            if not (lo and hi):
-                r3.bad('d[delnum]-in-range@%d' % n, x.where, 'slot access not dominated by 0 <= delnum < auto_spawn')
-    if n < 4:
-        raise AnalysisBroken('spawn.c docmd: d[delnum] accesses not found')
-    r3.ok('d[delnum]-in-range(%d accesses)' % n, 'spawn.c:docmd')
+    if (H.slots < 4 or H.spawns < 1) and all(v[0] for v in H.sites.values()):
+        raise AnalysisBroken('spawn.c docmd: slot accesses / spawn() not explored (%d / %d)' % (H.slots, H.spawns))
     # getcmd: stage order delnum, messid, sender, recip = comm_write order
     getcmd = prog.fn('getcmd', 'spawn.c')
     order = []
